@@ -19,14 +19,20 @@ Qed.
 
 Section Scan.
 Variable opts : list (string * bool).
+Notation optv := optional_value.
+Notation grps := flag_groups.
 
-Lemma scan_cons_plain t r : plain_tok opts t = true ->
-  scan opts false (t :: r) =
+Lemma scan_cons_plain t r n : plain_tok optv opts t = true ->
+  scan optv grps opts None n (t :: r) =
     if starts_dash t then
-      if separate_arg opts t then scan opts true r
-      else if registered opts t then scan opts false r
-      else match scan opts false r with Ok l => Ok (t :: l) | Err e => Err e end
-    else scan opts false r.
+      if separate_arg opts t then
+        match find (fun o : string * bool => (fst o =? t)%string) opts with
+        | Some (f, _) => scan optv grps opts (Some (f, n)) (S n) r
+        | None => SOk []
+        end
+      else if registered optv opts t then scan optv grps opts None (S n) r
+      else match scan optv grps opts None (S n) r with SOk l => SOk (t :: l) | e => e end
+    else scan optv grps opts None (S n) r.
 Proof.
   intros Hp. cbn [scan]. unfold classify_tok. unfold plain_tok in Hp.
   destruct (starts_dash t) eqn:Ed; cbn [negb] in *; [|reflexivity].
@@ -40,52 +46,73 @@ Proof.
     { unfold separate_arg. apply existsb_false_all. intros x Hx. rewrite (Hno x Hx). reflexivity. }
     assert (Hexact : existsb (fun o : string * bool => (fst o =? t)%string) opts = false) by (apply existsb_false_all; exact Hno).
     rewrite Hsep. unfold registered. rewrite Hexact. cbn [orb].
-    set (short := filter (fun o : string * bool => Nat.eqb (String.length (fst o)) 2 && String.prefix (fst o) t) opts) in *.
-    set (abbr := filter (fun o : string * bool => String.prefix t (fst o)) opts) in *.
     destruct (double_dash t).
-    + destruct short as [|x xs] eqn:Es; [|discriminate].
+    + destruct (filter (fun o : string * bool => Nat.eqb (String.length (fst o)) 2 && String.prefix (fst o) t) opts) as [|x xs] eqn:Es; [|discriminate].
       rewrite existsb_false_all; [reflexivity|]. intros x Hx.
       pose proof (filter_nil_all _ _ Es x Hx) as Hf. cbn beta in Hf.
       rewrite <- andb_assoc, Hf. apply andb_false_r.
-    + destruct short as [|[f0 takes] [|y ys]] eqn:Es; destruct abbr as [|z zs] eqn:Ea; try discriminate.
-      * cbn [app]. rewrite existsb_false_all; [reflexivity|]. intros x Hx.
+    + destruct (tok_matches opts t) as [|[f0 takes] [|y ys]] eqn:Es; try discriminate.
+      * rewrite existsb_false_all; [reflexivity|]. intros x Hx.
         pose proof (filter_nil_all _ _ Es x Hx) as Hf. cbn beta in Hf.
+        apply orb_false_iff in Hf. destruct Hf as [Hf _].
         rewrite <- andb_assoc, Hf. apply andb_false_r.
-      * subst takes. cbn [app].
-        assert (Hin : In (f0, true) short) by (rewrite Es; left; reflexivity).
-        unfold short in Hin. apply filter_In in Hin. destruct Hin as [Hin Hpred]. cbn [fst] in Hpred.
-        apply andb_prop in Hpred. destruct Hpred as [Hl Hpre]. rewrite Hl.
-        assert (existsb (fun o : string * bool => snd o && Nat.eqb (String.length (fst o)) 2 && String.prefix (fst o) t) opts = true).
-        { apply existsb_exists. exists (f0, true). split; [exact Hin|]. cbn [fst snd]. rewrite Hl, Hpre. reflexivity. }
+      * apply andb_prop in Hp. destruct Hp as [Hl Hg]. cbn [fst] in Hl. rewrite Hl, Hg.
+        assert (Hin : In (f0, takes) (tok_matches opts t)) by (rewrite Es; left; reflexivity).
+        unfold tok_matches in Hin. apply filter_In in Hin. destruct Hin as [Hin Hpred]. cbn [fst] in Hpred.
+        assert (Hpre : String.prefix f0 t = true).
+        { apply orb_prop in Hpred. destruct Hpred as [H|H]; [apply andb_prop in H; apply H|].
+          (* t is a prefix of the two-character flag f0 and t has at least two characters: t = f0, an exact match *)
+          exfalso. clear - H Hl Ed Hno Hin.
+          assert (t = f0); [|subst; pose proof (Hno _ Hin) as X; cbn [fst] in X; rewrite String.eqb_refl in X; discriminate].
+          destruct t as [|a [|b t']]; try discriminate. destruct f0 as [|a' [|b' [|c f']]]; try discriminate.
+          cbn in H. destruct (ascii_dec a a'); [|discriminate]. destruct (ascii_dec b b'); [|discriminate].
+          subst. destruct t'; [reflexivity|discriminate]. }
+        assert (existsb (fun o : string * bool => glue_ok optv o && Nat.eqb (String.length (fst o)) 2 && String.prefix (fst o) t) opts = true).
+        { apply existsb_exists. exists (f0, takes). split; [exact Hin|]. cbn [fst]. rewrite Hg, Hl, Hpre. reflexivity. }
         rewrite H. reflexivity.
 Qed.
 
-Lemma scan_spec n : forall toks, List.length toks <= n ->
-  forallb (plain_tok opts) toks = true -> args_complete opts toks = true ->
-  scan opts false toks = Ok (unknown_options opts toks).
+Lemma scan_spec m : forall toks n, List.length toks <= m ->
+  forallb (plain_tok optv opts) toks = true -> args_complete opts toks = true ->
+  scan optv grps opts None n toks = SOk (unknown_options optv opts toks).
 Proof.
-  induction n as [n IH] using lt_wf_ind. intros toks Hlen Hp Hc.
+  induction m as [m IH] using lt_wf_ind. intros toks n Hlen Hp Hc.
   destruct toks as [|t r]; [reflexivity|].
   cbn [forallb] in Hp. apply andb_prop in Hp. destruct Hp as [Ht Hr].
-  rewrite (scan_cons_plain t r Ht). cbn [unknown_options args_complete] in *. cbn [List.length] in Hlen.
+  rewrite (scan_cons_plain t r n Ht). cbn [unknown_options args_complete] in *. cbn [List.length] in Hlen.
   destruct (starts_dash t).
-  - destruct (separate_arg opts t); cbn [andb] in Hc.
+  - destruct (separate_arg opts t) eqn:Es; cbn [andb] in Hc.
     + destruct r as [|a r']; [discriminate|]. apply andb_prop in Hc. destruct Hc as [Ha Hc].
-      cbn [scan]. apply negb_true_iff in Ha. rewrite Ha.
-      cbn [forallb] in Hr. apply andb_prop in Hr. destruct Hr as [_ Hr'].
-      cbn [List.length] in Hlen. apply (IH (List.length r')); [lia|lia|exact Hr'|exact Hc].
-    + destruct (registered opts t).
+      destruct (find (fun o : string * bool => (fst o =? t)%string) opts) as [[f b]|] eqn:Ef.
+      * cbn [scan]. apply negb_true_iff in Ha. rewrite Ha.
+        cbn [forallb] in Hr. apply andb_prop in Hr. destruct Hr as [_ Hr'].
+        cbn [List.length] in Hlen. apply (IH (List.length r')); [lia|lia|exact Hr'|exact Hc].
+      * exfalso. unfold separate_arg in Es. apply existsb_exists in Es. destruct Es as (x & Hx & He).
+        apply andb_prop in He. destruct He as [He _]. rewrite (find_none _ _ Ef x Hx) in He. discriminate.
+    + destruct (registered optv opts t).
       * apply (IH (List.length r)); [lia|lia|exact Hr|exact Hc].
-      * rewrite (IH (List.length r) ltac:(lia) r ltac:(lia) Hr Hc). reflexivity.
+      * rewrite (IH (List.length r) ltac:(lia) r (S n) ltac:(lia) Hr Hc). reflexivity.
   - cbn [andb] in Hc. apply (IH (List.length r)); [lia|lia|exact Hr|exact Hc].
+Qed.
+
+(* plain tokens are never ambiguous *)
+Lemma plain_not_ambiguous toks : forallb (plain_tok optv opts) toks = true -> first_ambiguous optv grps opts toks = None.
+Proof.
+  induction toks as [|t r IH]; [reflexivity|]. cbn [forallb first_ambiguous]. intros H.
+  apply andb_prop in H. destruct H as [Ht Hr]. rewrite (IH Hr).
+  unfold classify_tok. unfold plain_tok in Ht. destruct (starts_dash t); cbn [negb] in *; [|reflexivity].
+  destruct (find (fun o : string * bool => (fst o =? t)%string) opts) as [[f [|]]|]; try reflexivity.
+  destruct (double_dash t); [reflexivity|].
+  destruct (tok_matches opts t) as [|[f0 takes] [|y ys]]; try reflexivity; try discriminate.
+  destruct (Nat.eqb (String.length f0) 2); [destruct (glue_ok optv (f0, takes)); reflexivity|destruct takes; reflexivity].
 Qed.
 End Scan.
 
 (* ---------- one database entry ---------- *)
-Definition db_step_G := db_step base_options compilers source_extensions.
+Definition db_step_G := db_step base_options compilers source_extensions optional_value flag_groups.
 Definition entry_ok (fs : fsys) (e : dbentry) : bool :=
   negb (usable source_extensions fs e)
-  || (forallb (plain_tok (opts_of base_options compilers e)) (toks_of compilers e)
+  || (forallb (plain_tok optional_value (opts_of base_options compilers e)) (toks_of compilers e)
       && args_complete (opts_of base_options compilers e) (toks_of compilers e)).
 
 Lemma find_compiler_known name l :
@@ -98,7 +125,7 @@ Qed.
 
 Lemma db_step_spec fs e : entry_ok fs e = true ->
   exists ws, db_step_G fs e = Ok (ws, if usable source_extensions fs e then repeat (entry_of e) (passes_of compilers e) else [])
-             /\ map sev_of_wrec ws = db_events base_options compilers source_extensions fs e.
+             /\ map sev_of_wrec ws = db_events base_options compilers source_extensions optional_value fs e.
 Proof.
   unfold entry_ok, db_step_G, db_step, db_events, usable, opts_of, toks_of, passes_of.
   destruct (db_argv0 e) as [a|]; [|intros _; eexists; split; reflexivity].
@@ -106,14 +133,14 @@ Proof.
   destruct (isfile fs (db_file e)); cbn [negb andb orb]; [|intros _; eexists; split; reflexivity].
   intros H. apply andb_prop in H. destruct H as [Hp Hc].
   destruct (resolve compilers (List.length compilers) (basename a)) as [[defaults flags] extra]. cbn [fst snd] in *.
-  rewrite (scan_spec _ _ _ (le_n _) Hp Hc). rewrite find_compiler_known.
+  unfold parse_argv. rewrite (plain_not_ambiguous _ _ Hp), (scan_spec _ _ _ 0 (le_n _) Hp Hc). rewrite find_compiler_known.
   eexists. split; [reflexivity|]. rewrite map_app.
-  destruct (find_compiler (basename a) compilers); destruct (unknown_options (base_options ++ flags) (argv_tokens e ++ defaults)); reflexivity.
+  destruct (find_compiler (basename a) compilers); destruct (unknown_options optional_value (base_options ++ flags) (argv_tokens e ++ defaults)); reflexivity.
 Qed.
 
 Lemma db_steps_spec fs l : forallb (entry_ok fs) l = true ->
-  exists ws, db_steps base_options compilers source_extensions fs l = Ok (ws, db_units compilers source_extensions fs l)
-             /\ map sev_of_wrec ws = flat_map (db_events base_options compilers source_extensions fs) l.
+  exists ws, db_steps base_options compilers source_extensions optional_value flag_groups fs l = Ok (ws, db_units compilers source_extensions fs l)
+             /\ map sev_of_wrec ws = flat_map (db_events base_options compilers source_extensions optional_value fs) l.
 Proof.
   induction l as [|e l IH]; cbn [forallb db_steps]; [intros _; eexists; split; reflexivity|].
   intros H. apply andb_prop in H. destruct H as [He Hl].
@@ -125,9 +152,9 @@ Qed.
 Definition platform_ok (fs : fsys) (pl : string * list dbentry) : bool := forallb (entry_ok fs) (snd pl).
 
 Lemma load_dbs_spec fs pls : forallb (platform_ok fs) pls = true ->
-  exists ws ess, load_dbs base_options compilers source_extensions fs pls = Ok (ws, ess)
+  exists ws ess, load_dbs base_options compilers source_extensions optional_value flag_groups fs pls = Ok (ws, ess)
     /\ concat ess = flat_map (fun pl => db_units compilers source_extensions fs (snd pl)) pls
-    /\ map sev_of_wrec ws = flat_map (platform_events base_options compilers source_extensions fs) pls.
+    /\ map sev_of_wrec ws = flat_map (platform_events base_options compilers source_extensions optional_value fs) pls.
 Proof.
   induction pls as [|[db l] pls IH]; cbn [forallb load_dbs]; [intros _; exists [], []; repeat split|].
   intros H. apply andb_prop in H. destruct H as [Hp Hr]. unfold platform_ok in Hp. cbn [snd] in Hp.
